@@ -317,6 +317,11 @@ class DiagonalReplicated(Operator):
         self.replicates = replicates
         self.input_axis = input_axis
         self.output_axis = self.input_axis if output_axis is None else output_axis
+        if self.output_axis > len(op.output_shape):
+            raise ValueError(
+                "The default output_axis (the input axis) exceeds the number of axes in the "
+                "output shape of op; argument output_axis must be specified."
+            )
 
         if map_type == "auto":
             self.jaxmap = jax.pmap if replicates <= jax.device_count() else jax.vmap
